@@ -327,6 +327,66 @@ def basics_tables(prog, res):
                  "basic_device_count does not return the number of device kinds")
 
 
+def rule_range_reject(prog, res, rule="R-RANGE-REJECT"):
+    """'Out-of-range indices produce an error status': in the driver's describe /
+    open entry points every return of Device_Ok entails 0 <= index < number of
+    device kinds for the index AS RECEIVED (64 bits).  Linear domain with
+    narrowing conversions modelled: a copy of the index in a narrower type is an
+    unknown unless the value was already proven to fit, so a range test (or a
+    switch) on the narrowed copy says nothing about the parameter."""
+    from .. import linear as L
+    sentinel = [v for n, v in (prog.enum_values("BasicDeviceKind") or []) if n.endswith("Count")]
+    ok_v = dict(prog.enum_values("DeviceStatusCode") or []).get("Device_Ok", 0)
+    if not sentinel:
+        raise AnalysisBroken("enum BasicDeviceKind has no ...Count sentinel")
+    count = sentinel[0]
+    n = 0
+    for fname in ("basic_device_describe", "basic_device_open"):
+        f = prog.func(fname)
+        res.touched(f)
+        idx = [p_ for p_ in f.params if not p_.get("pd") and not p_.get("r") and ("long" in p_.get("t", "") or "int" in p_.get("t", ""))]
+        if len(idx) != 1:
+            raise AnalysisBroken("%s: expected one integer index parameter" % fname)
+        an = L.Analysis(prog)
+        an.model_narrowing = True
+        st = L.State()
+        key = "%s:%s" % (fname, idx[0]["n"])
+        sym = L.lvar("index")
+        st.cells[key] = sym
+        st.cons.append(("le", L.lscale(sym, -1)))
+        rets = an.run(f, st)
+        oks = bad = 0
+        for rv, s_ in rets:
+            if rv is None:
+                continue
+            if not s_.copy().feasible():
+                continue
+            may_ok = True
+            if L.is_const(rv):
+                may_ok = rv.get(L.ONE, 0) == ok_v
+            else:
+                s2 = s_.copy()
+                s2.cons.append(("eq", L.lsub(rv, L.lconst(ok_v))))
+                may_ok = s2.feasible()
+            if not may_ok:
+                continue
+            oks += 1
+            if not s_.entails_le(L.ladd(L.lsub(sym, L.lconst(count)), L.lconst(1))):
+                bad += 1
+        n += 1
+        inst = "%s: Device_Ok only for 0 <= %s < %d" % (fname, idx[0]["n"], count)
+        if oks == 0:
+            raise AnalysisBroken("%s never returns Device_Ok in the analysis" % fname)
+        if bad:
+            res.fail(rule, inst, "%s|%s" % (rule, fname), f.loc(),
+                     "%s can return Device_Ok although its index parameter %s (as received, 64 bits) is not known to be below %d: "
+                     "the range test / dispatch works on a narrowed copy, so an out-of-range index whose low bits are in range selects a device instead of producing an error"
+                     % (fname, idx[0]["n"], count))
+        else:
+            res.oblige(rule, inst, True, "%d successful return state(s)" % oks, f.loc())
+    return n
+
+
 def loader_cleanup(prog, res):
     f = prog.func("driver_load")
     res.touched(f)
@@ -478,6 +538,8 @@ def run(ctx, res):
     select_semantics(prog, res)
     slot_index(prog, res)
     basics_tables(prog, res)
+    res.guard(rule_range_reject, prog, res)
+    res.require_min("R-RANGE-REJECT", 2)
     loader_cleanup(prog, res)
     res.guard(bounded_and_literals, prog, res)
     res.guard(name_input_guard, prog, res)
